@@ -1282,7 +1282,13 @@ func cacheOrder(seed uint64) (violation string, writes, notifications int64) {
 	// write events must do so as the single consumer (under the eviction lock)
 	var stopGetters atomic.Bool
 	var gwg sync.WaitGroup
-	for g := 0; g < 1+r.Intn(3); g++ {
+	// (in half of the cases nobody else looks at the policies: with a stalled executor the write buffer then
+	// really fills up and the producers that find it full apply their own event behind the buffered ones)
+	getters := 0
+	if r.Chance(1, 2) {
+		getters = 1 + r.Intn(3)
+	}
+	for g := 0; g < getters; g++ {
 		gwg.Add(1)
 		go func(g int) {
 			defer gwg.Done()
